@@ -41,6 +41,10 @@ pub struct XCase {
     pub seekable: bool,
     pub policy: Policy,
     pub fault: Option<(u64, Decision)>,
+    /// directories of the archive (by entry index) that already exist in the target before extraction, with
+    /// the mode they were created with: the recorded mode must still be applied
+    #[serde(default)]
+    pub precreate: Vec<(usize, u32)>,
 }
 
 pub struct Extract;
@@ -209,6 +213,10 @@ impl Scenario for Extract {
             } else {
                 gen_xname(&mut r, &used)
             };
+            if kind == 1 && benign && r.chance(1, 2) {
+                // an explicit entry for a directory that other entries live in - before or after them
+                name = if r.chance(1, 2) { format!("dir{}/", r.below(3)) } else { format!("dir{}/sub{}/", r.below(3), r.below(2)) };
+            }
             if kind == 1 && !name.ends_with('/') {
                 name.push('/');
             }
@@ -239,7 +247,15 @@ impl Scenario for Extract {
         }
         let seekable = r.chance(1, 2);
         let fault = if rs.chance(1, 6) { Some((r.below(200), r.pickc(&[Decision::Fail(EK::Other), Decision::EofEarly, Decision::Eintr]))) } else { None };
-        let case = XCase { entries, by_writer, seekable, policy: gen_policy_short(&mut r), fault };
+        let mut precreate = vec![];
+        if benign && rs.chance(1, 5) {
+            for (i, e) in entries.iter().enumerate() {
+                if e.kind == 1 && r.chance(1, 2) {
+                    precreate.push((i, r.pickc(&[0o700u32, 0o755, 0o777, 0o733, 0o750])));
+                }
+            }
+        }
+        let case = XCase { entries, by_writer, seekable, policy: gen_policy_short(&mut r), fault, precreate };
         serde_json::to_value(case).unwrap_or(Value::Null)
     }
 
@@ -336,6 +352,17 @@ impl Scenario for Extract {
                 }
             })
             .collect();
+        for (i, m) in &c.precreate {
+            if let Some(n) = names.get(*i) {
+                if c.entries[*i].kind == 1 && name_is_safe(n) && !n.contains('\\') {
+                    let p = target.join(n.trim_end_matches('/'));
+                    if p.starts_with(&target) && std::fs::create_dir_all(&p).is_ok() {
+                        let _ = std::fs::set_permissions(&p, std::fs::Permissions::from_mode(*m));
+                        ctx.probe("directory_existed_before_extraction");
+                    }
+                }
+            }
+        }
         let before = snapshot(&root, &target);
         // ---- extract
         let pol = match &c.fault {
@@ -523,7 +550,8 @@ impl Scenario for Extract {
             if c.entries.len() > 1 {
                 let mut v = c.entries.clone();
                 v.remove(i);
-                out.push(XCase { entries: v, ..c.clone() });
+                let pc: Vec<(usize, u32)> = c.precreate.iter().filter(|(k, _)| *k != i).map(|(k, m)| (if *k > i { *k - 1 } else { *k }, *m)).collect();
+                out.push(XCase { entries: v, precreate: pc, ..c.clone() });
             }
         }
         if !matches!(c.policy, Policy::Pure) {
@@ -531,6 +559,9 @@ impl Scenario for Extract {
         }
         if c.fault.is_some() {
             out.push(XCase { fault: None, ..c.clone() });
+        }
+        if !c.precreate.is_empty() {
+            out.push(XCase { precreate: vec![], ..c.clone() });
         }
         for i in 0..c.entries.len() {
             let e = &c.entries[i];
